@@ -44,11 +44,46 @@ type cliState struct {
 
 	sendStarted atomic.Bool
 	sendDone    chan struct{}
+
+	second        atomic.Bool // a second signal was sent (and delivered) while awaitPandoraTermination was still there
+	secondDone    chan struct{}
+	secondStarted atomic.Bool
+}
+
+// sendSecond: the second signal of an int2 / term2 case: only after the first one was acted on (`gs`) and the result
+// of Engine.Run was read, so that awaitPandoraTermination sits in its innermost select
+func (c *cliState) sendSecond(kind string) {
+	defer close(c.secondDone)
+	time.Sleep(10 * time.Millisecond)
+	c.mu.Lock()
+	ok := c.sig && !c.done
+	c.mu.Unlock()
+	if !ok {
+		return
+	}
+	sg := syscall.SIGINT
+	if kind == "term" {
+		sg = syscall.SIGTERM
+	}
+	signalDrain()
+	c.second.Store(true)
+	_ = syscall.Kill(os.Getpid(), sg)
+	select {
+	case <-signalAck:
+	case <-time.After(2 * time.Second):
+	}
+	time.Sleep(time.Millisecond)
 }
 
 func (c *cliState) add(ev string) {
 	c.mu.Lock()
-	if !c.done || ev == "hang" {
+	dead := false
+	for _, e := range c.evs {
+		if len(e) >= 5 && e[:5] == "fatal" {
+			dead = true // the process has exited there; what the goroutines the harness kept alive do later is not its behaviour
+		}
+	}
+	if (!c.done && !dead) || ev == "hang" {
 		c.evs = append(c.evs, ev)
 	}
 	c.mu.Unlock()
@@ -103,6 +138,12 @@ func (c *cliState) quiesce(timerStopped bool) {
 	if c.sendStarted.Load() {
 		select {
 		case <-c.sendDone:
+		case <-time.After(3 * time.Second):
+		}
+	}
+	if c.secondStarted.Load() {
+		select {
+		case <-c.secondDone:
 		case <-time.After(3 * time.Second):
 		}
 	}
